@@ -295,6 +295,13 @@ class Src:
                 # items produced inside item-position macros (parsed best-effort)
                 if k == "macro" and it.get("items"):
                     self._index_items(file, module, it["items"], t)
+                # items written inside a macro_rules! body that happens to be plain Rust (e.g. a trait defined by `() => { pub trait .. }`)
+                if k == "macro" and it.get("def") and isinstance(it.get("tt"), list):
+                    for g in it["tt"]:
+                        if isinstance(g, dict) and "block" in g:
+                            inner = [st["item"] for st in g["block"].get("stmts", []) if st.get("k") == "item"]
+                            if inner:
+                                self._index_items(file, module, inner, t)
 
     def find_fns(self, name=None, self_ty=None, trait=None, file=None, test=False, self_ty_re=None, trait_re=None):
         import re
@@ -414,6 +421,14 @@ def load_known():
     return out
 
 
+def msg_sig(msg):
+    """Signature of a violation message (digits normalised): a known finding that carries `msg_sig` only covers this failure."""
+    import hashlib
+    import re
+
+    return hashlib.sha1(re.sub(r"\d+", "#", msg).encode()).hexdigest()[:12]
+
+
 def finish(rep, level="other", exhaustive=False):
     """Print VIOLATION / KNOWN-FINDING lines, write evidence, return the exit code."""
     known = load_known()
@@ -435,8 +450,11 @@ def finish(rep, level="other", exhaustive=False):
         if k in seen:
             continue
         seen.add(k)
-        if k in kidx:
+        if k in kidx and kidx[k].get("msg_sig") in (None, msg_sig(v["msg"])):
             listed.append((v, kidx[k]))
+        elif k in kidx:
+            # same construct, different failure: a listed finding never masks another violation of the same construct
+            new.append(dict(v, key=v["key"] + "@changed", msg=v["msg"] + " [differs from the known finding recorded for this construct]"))
         else:
             new.append(v)
     stale = [f for (k, f) in kidx.items() if k[0] == rep.prop and k not in seen]
